@@ -122,6 +122,18 @@ def single(ctx, binp, case, nconc=3, env=None):
     return s
 
 
+# recorded deviations of the code from the intended design (KNOWN_FINDINGS.json): key, configuration of AnkoSem with that deviation switched on
+DEVIATIONS = [("dev:TrySwallowsReturn", "MC_AnkoSem_dev.cfg"), ("dev:LhsIndexReevaluated", "MC_AnkoSem_dev2.cfg")]
+
+
+def dev_applies(key, prog):
+    """the programs a deviation can matter for (the others are not evaluated a second time)"""
+    js = json.dumps(prog)
+    if key == "dev:TrySwallowsReturn":
+        return '"k": "try"' in js and '"k": "return"' in js       # a return inside a try
+    return '"lhs": [{"k": "idx", "e": {"k": "idx"' in js or '{"k": "idx", "e": {"k": "idx"' in js and '"k": "let"' in js    # an index path of two or more steps as a target
+
+
 def run_family(ctx, binp, progs, tag, kinds=("semantic", "panic"), nconc=2, deviations=True, env=None, prop_filter=None):
     """Evaluate + replay one family.  `kinds`: the mismatch kinds this property judges (others are left to the
     property that owns them, e.g. isolation -> C14).  Returns the harness summary."""
@@ -133,10 +145,11 @@ def run_family(ctx, binp, progs, tag, kinds=("semantic", "panic"), nconc=2, devi
     nopen = sum(1 for e in exps.values() if e.get("open") and e["cls"] != "fuel")
     alts = None
     if deviations and vlib.open_findings(ctx, ctx.id):
-        # the deviation can only matter for programs with a return inside a try
-        cand = [p for p in progs if '"k": "try"' in json.dumps(p["prog"]) and '"k": "return"' in json.dumps(p["prog"])]
-        dev = evaluate(ctx, cand, cfg="MC_AnkoSem_dev.cfg") if cand else {}
-        alts = {"dev:TrySwallowsReturn": {p["id"]: dev.get(p["id"], exps[p["id"]]) for p in progs}}
+        alts = {}
+        for key, cfg in DEVIATIONS:
+            cand = [p for p in progs if dev_applies(key, p["prog"])]
+            dev = evaluate(ctx, cand, cfg=cfg) if cand else {}
+            alts[key] = {p["id"]: dev.get(p["id"], exps[p["id"]]) for p in progs}
     s = replay(ctx, binp, progs, exps, tag, nconc=nconc, env=env, alts=alts)
     for key, n in (s.get("known") or {}).items():
         for f in vlib.open_findings(ctx, ctx.id):
@@ -182,11 +195,12 @@ def run_family(ctx, binp, progs, tag, kinds=("semantic", "panic"), nconc=2, devi
 def replay_one(ctx, binp, path, nconc=3, env=None):
     p = json.load(open(path))
     case = {"id": p["id"], "prog": p["prog"], "exp": p["expected"], "unordered": p.get("unordered", False)}
-    js = json.dumps(p["prog"])
-    if vlib.open_findings(ctx, ctx.id) and '"k": "try"' in js and '"k": "return"' in js:
-        dev = evaluate(ctx, [{"id": p["id"], "prog": p["prog"]}], cfg="MC_AnkoSem_dev.cfg")
-        if dev.get(p["id"]) and dev[p["id"]] != p["expected"]:
-            case["alt"] = [{"key": "dev:TrySwallowsReturn", "exp": dev[p["id"]]}]
+    if vlib.open_findings(ctx, ctx.id):
+        for key, cfg in DEVIATIONS:
+            if dev_applies(key, p["prog"]):
+                dev = evaluate(ctx, [{"id": p["id"], "prog": p["prog"]}], cfg=cfg)
+                if dev.get(p["id"]) and dev[p["id"]] != p["expected"]:
+                    case.setdefault("alt", []).append({"key": key, "exp": dev[p["id"]]})
     r = single(ctx, binp, case, nconc=nconc, env=env)
     for key in (r.get("known") or {}):
         for f in vlib.open_findings(ctx, ctx.id):
